@@ -78,6 +78,8 @@ type vfC18Conn struct {
 	gotDone   bool     // handler read up to EOF / error
 	teardown  bool     // created by the harness teardown (poke), not by the enumerated schedule
 	cliGot    []byte   // what the client read back (only with opt.drain)
+	connSeq   int      // log position of the connect event
+	gen       int      // generation of the base listener it was offered to
 }
 
 // vfC18ConnOpt: optional client behaviour.
@@ -207,10 +209,19 @@ type vfC18Port struct {
 
 	gmu        sync.Mutex
 	deleteGate chan struct{}
+
+	handles []*vfC18Handle
+	deleted map[int]bool // mux generations whose delete callback ran
+	// strictLiveness: the caller guarantees that every Listen* call happened either on a mux
+	// this very call created or on a mux that was alive at a quiescent point immediately
+	// before the call (no operation in between), i.e. never on a mux already shutting
+	// down, and that the base listener never fails. Then a sub-listener the application has
+	// not closed must stay usable: its mux must not shut down, its Accept must not fail.
+	strictLiveness bool
 }
 
 func vfC18NewPort() *vfC18Port {
-	return &vfC18Port{log: &vfLog{}}
+	return &vfC18Port{log: &vfLog{}, deleted: map[int]bool{}}
 }
 
 // getOrCreate mirrors muxManager.GetOrCreate with the fake base listener.
@@ -237,6 +248,7 @@ func (p *vfC18Port) getOrCreate() *muxListener {
 		p.mu.Lock()
 		defer p.mu.Unlock()
 		p.log.Add("mux_deleted", "", int64(gen), nil)
+		p.deleted[gen] = true
 		if p.ml == ml {
 			p.ml, p.base = nil, nil
 		}
@@ -250,6 +262,14 @@ func (p *vfC18Port) getOrCreate() *muxListener {
 
 func (p *vfC18Port) listen(kind string) (net.Listener, error) {
 	ml := p.getOrCreate()
+	p.mu.Lock()
+	gen := 0
+	for i, m := range p.muxes {
+		if m == ml {
+			gen = i + 1
+		}
+	}
+	p.mu.Unlock()
 	var ln net.Listener
 	var err error
 	if kind == "socks" {
@@ -261,8 +281,55 @@ func (p *vfC18Port) listen(kind string) (net.Listener, error) {
 	if err != nil {
 		es = err.Error()
 	}
-	p.log.Add("listen_"+kind, es, 0, nil)
-	return ln, err
+	seq := p.log.Add("listen_"+kind, es, int64(gen), nil)
+	if err != nil {
+		return nil, err
+	}
+	h := &vfC18Handle{Listener: ln, p: p, kind: kind, gen: gen, regSeq: seq, closedSeq: -1}
+	p.mu.Lock()
+	p.handles = append(p.handles, h)
+	p.mu.Unlock()
+	return h, nil
+}
+
+// vfC18Handle is a sub-listener as returned to the "application": it records when the
+// registration returned, when the application closed it, whether its handler ever called
+// Accept and whether Accept failed while the application had not closed it.
+type vfC18Handle struct {
+	net.Listener
+	p      *vfC18Port
+	kind   string
+	gen    int // generation of the mux it was registered on
+	regSeq int // log position at which Listen* had returned it
+
+	mu           sync.Mutex
+	closedSeq    int // log position just before the application's Close(), -1 = still open
+	acceptCalled bool
+	acceptErr    string // first Accept error seen while the application had not closed it
+}
+
+func (h *vfC18Handle) Close() error {
+	h.mu.Lock()
+	if h.closedSeq < 0 {
+		h.closedSeq = h.p.log.Add("close_"+h.kind, "", int64(h.gen), nil)
+	}
+	h.mu.Unlock()
+	return h.Listener.Close()
+}
+
+func (h *vfC18Handle) Accept() (net.Conn, error) {
+	h.mu.Lock()
+	h.acceptCalled = true
+	h.mu.Unlock()
+	c, err := h.Listener.Accept()
+	if err != nil {
+		h.mu.Lock()
+		if h.closedSeq < 0 && h.acceptErr == "" {
+			h.acceptErr = err.Error()
+		}
+		h.mu.Unlock()
+	}
+	return c, err
 }
 
 // connect makes a client connection: first<0 -> the client sends nothing and closes;
@@ -288,7 +355,10 @@ func (p *vfC18Port) connectOpt(first int, payloadLen int, chunks func(total int)
 	cli, srv := net.Pipe()
 	c.cli = cli
 	c.srv = &vfC18SrvConn{Conn: srv, c: c}
-	p.log.Add("connect", c.name(), int64(first), nil)
+	c.connSeq = p.log.Add("connect", c.name(), int64(first), nil)
+	if base != nil {
+		c.gen = base.gen
+	}
 	if base == nil || base.isClosed() {
 		c.refused = true
 		_ = cli.Close()
@@ -531,6 +601,11 @@ func (p *vfC18Port) judge() (vs []vfC18Verdict, delivered, closedByMux, refused,
 		default:
 			if closed {
 				closedByMux++
+				if h := p.liveHandlerFor(c); h != nil {
+					vs = append(vs, vfC18Verdict{"mux:conn-closed-although-handler-registered",
+						fmt.Sprintf("%s (first byte %#02x, connected at log seq %d) was closed by the mux instead of being handed to the %s sub-listener that Listen* had returned at log seq %d on the same mux (generation %d): that sub-listener was never closed, its handler is in Accept and the mux is still up",
+							c.name(), c.first, c.connSeq, h.kind, h.regSeq, h.gen), c.name()})
+				}
 			} else {
 				what := fmt.Sprintf("sent first byte %#02x", c.first)
 				if c.first < 0 {
@@ -548,7 +623,59 @@ func (p *vfC18Port) judge() (vs []vfC18Verdict, delivered, closedByMux, refused,
 			}
 		}
 	}
+	if p.strictLiveness {
+		p.mu.Lock()
+		handles := append([]*vfC18Handle(nil), p.handles...)
+		p.mu.Unlock()
+		for _, h := range handles {
+			h.mu.Lock()
+			open, aerr := h.closedSeq < 0, h.acceptErr
+			h.mu.Unlock()
+			if !open {
+				continue
+			}
+			p.mu.Lock()
+			dead := p.deleted[h.gen]
+			p.mu.Unlock()
+			if dead || aerr != "" {
+				vs = append(vs, vfC18Verdict{"mux:live-sublistener-accept-failed",
+					fmt.Sprintf("the %s sub-listener returned by Listen* at log seq %d (mux generation %d) was never closed by the application, yet its mux shut down (delete callback ran: %v) / its Accept failed (%q)", h.kind, h.regSeq, h.gen, dead, aerr), ""})
+			}
+		}
+	}
 	return
+}
+
+// liveHandlerFor returns the sub-listener that must have received c: same protocol, same
+// mux, registration returned before c connected, never closed by the application, handler
+// in Accept, mux still up at this (quiescent) point. Holds for every schedule: from its
+// registration on such a sub-listener occupies its protocol's slot, and a mux that is up
+// at quiescence has not begun to shut down.
+func (p *vfC18Port) liveHandlerFor(c *vfC18Conn) *vfC18Handle {
+	if c.first < 0 {
+		return nil
+	}
+	want := "http"
+	if c.first == 5 {
+		want = "socks"
+	}
+	p.mu.Lock()
+	defer p.mu.Unlock()
+	if p.deleted[c.gen] {
+		return nil
+	}
+	for _, h := range p.handles {
+		if h.kind != want || h.gen != c.gen || h.regSeq >= c.connSeq {
+			continue
+		}
+		h.mu.Lock()
+		ok := h.closedSeq < 0 && h.acceptCalled && h.acceptErr == ""
+		h.mu.Unlock()
+		if ok {
+			return h
+		}
+	}
+	return nil
 }
 
 func vfC18Diff(want, got []byte) string {
